@@ -215,6 +215,11 @@ class Effects:
                     self.stats["external"] += 1
             elif isinstance(n, ast.Attribute) and isinstance(n.ctx, ast.Load) and id(n) not in method_func_attrs:
                 c = recv_info(n.value)
+                if c is not None and self.types.field_type(c, n.attr) is None:
+                    m = self.repo.lookup_method(c, n.attr)
+                    if m is not None:
+                        # a bound method taken as a value (handed to a helper, put into a table): whoever receives it calls it
+                        calls.append(CallSite(n, [m], True, func))
                 if c is not None or not isinstance(n.value, ast.Name) or n.value.id not in self.repo.enums:
                     effs.append(Effect("read", c, n.attr, n, n.value, func))
         # module-level tables the function consults (e.g. a (mode, key lambda, reverse) table): what the lambdas in them read is
